@@ -21,17 +21,22 @@ import sys
 from typing import Any
 
 from verif import core, sysfi
-from verif.props import c07
+from verif.props import c05_txn, c07
+from verif.translators import tsession
 
 RULE = (
     "scenarios of 2-3 workers x 1-3 journal-file calls; a dry run lists the victim's system calls; then one run per "
     "crash point = (victim, k-th system call, before|after) and for write calls byte cuts {0, 1, mid, len-1, len} "
-    "(thorough: every offset); survivors append and read afterwards, a fresh opener reads; a case is non-trivial when the "
+    "(thorough: every offset); every fifth scenario the victim's record is longer than one or two 8 kB buffer blocks, with "
+    "cuts around the block boundaries; survivors append and read afterwards, a fresh opener reads; a case is non-trivial when the "
     "victim died holding the lock or inside a write; distinct by SHA-1 of (lock class, programs, crash point)"
 )
 
 
-def scenario(r: random.Random) -> list[list[dict[str, Any]]]:
+BIG_PADS = [8300, 9000, 17000]   # records longer than one / two I/O buffer blocks (io.DEFAULT_BUFFER_SIZE = 8192)
+
+
+def scenario(r: random.Random, big: bool = False) -> list[list[dict[str, Any]]]:
     nth = r.choice([2, 2, 3])
     progs = c07.gen_progs(r, nth, max_calls=2)
     # a storage call appends exactly one record (`JournalStorage._write_log`): all-or-nothing is claimed per call
@@ -42,6 +47,11 @@ def scenario(r: random.Random) -> list[list[dict[str, Any]]]:
     # make sure the victim (thread 0) appends, and every survivor appends + reads afterwards
     if not any(a["a"] == "append" for a in progs[0]):
         progs[0].append({"a": "append", "recs": [{"w": 0, "i": 50, "pad": "v" * r.choice([0, 9])}]})
+    if big:
+        # the victim's last record is longer than a buffer block: a torn tail of > 8 kB must be repaired too
+        # (e.g. a large user attribute or template trial)
+        last = [a for a in progs[0] if a["a"] == "append"][-1]
+        last["recs"][0]["pad"] = "B" * r.choice(BIG_PADS)
     for t in range(1, nth):
         # the continuation after the victim's death: a survivor may read before anybody repairs the tail
         progs[t].append({"a": "read", "from": 0, "after_victim": True})
@@ -59,7 +69,12 @@ def crash_points(events: list[tuple[int, str]], victim: int, r: random.Random, a
             continue
         if name.startswith("write"):
             n = recs_len.get(idx, 40)
-            cuts = range(0, n + 1) if all_offsets else sorted({0, 1, n // 2, max(n - 1, 0), n, r.randrange(n + 1)})
+            if n > 4096:
+                # long record: cuts around the buffer-block boundaries (from the start and from the end) as well
+                cuts = sorted(c for c in {0, 1, n // 2, n - 1, n, r.randrange(n + 1), 4097, 8191, 8192, 8193, n - 8193, n - 8192,
+                                          n - 4097, 16385} if 0 <= c <= n)
+            else:
+                cuts = range(0, n + 1) if all_offsets else sorted({0, 1, n // 2, max(n - 1, 0), n, r.randrange(n + 1)})
             for c in cuts:
                 pts.append({"at": idx, "when": "cut", "cut": c, "name": name})
         else:
@@ -69,14 +84,15 @@ def crash_points(events: list[tuple[int, str]], victim: int, r: random.Random, a
     return pts
 
 
-def _worker(args: tuple[str, int, bool, str]) -> list[dict[str, Any]]:
-    lock_kind, seed, all_offsets, tmp = args
+def _worker(args: tuple[str, int, bool, str, bool]) -> list[dict[str, Any]]:
+    lock_kind, seed, all_offsets, tmp, big = args
     r = random.Random(seed)
-    progs = scenario(r)
+    progs = scenario(r, big)
     res: list[dict[str, Any]] = []
     # dry run (same seed => same schedule up to the crash)
     plan0 = sysfi.Plan()
-    out0 = c07.run_file_case(lock_kind, progs, seed, tmp, plan=plan0, grace=3, tag="_dry")
+    steps = 1500000 if big else 200000   # the tail repair scans a torn record byte by byte
+    out0 = c07.run_file_case(lock_kind, progs, seed, tmp, plan=plan0, grace=3, tag="_dry", max_steps=steps)
     if "infra" in out0:
         return [{"kind": "infra", "why": out0["infra"], "seed": seed}]
     probs0 = c07.judge(out0, len(progs))
@@ -103,7 +119,7 @@ def _worker(args: tuple[str, int, bool, str]) -> list[dict[str, Any]]:
     for p in pts:
         plan = sysfi.Plan(thread=0, at=p["at"], when=("before" if p["when"] == "cut" else p["when"]), cut=p.get("cut"))
         try:
-            out = c07.run_file_case(lock_kind, progs, seed, tmp, plan=plan, grace=3, tag="_c")
+            out = c07.run_file_case(lock_kind, progs, seed, tmp, plan=plan, grace=3, tag="_c", max_steps=steps)
         except Exception as e:  # noqa: BLE001
             res.append({"kind": "infra", "why": str(e)[:200], "seed": seed})
             continue
@@ -128,11 +144,13 @@ def explore(chk: core.Check, n_scen: int, all_offsets: bool) -> None:
     jobs = []
     for li, lock_kind in enumerate(["symlink", "open"]):
         for i in range(n_scen):
-            jobs.append((lock_kind, chk.seed * 1000003 + li * 7919 + i, all_offsets, chk.tmp))
+            jobs.append((lock_kind, chk.seed * 1000003 + li * 7919 + i, all_offsets, chk.tmp, i % 5 == 0))
     with mp.get_context("spawn").Pool(12) as pool:
         results = pool.map(_worker, jobs)
-    for (lock_kind, seed, _, _), res in zip(jobs, results):
+    for (lock_kind, seed, _, _, big), res in zip(jobs, results):
         for rec in res:
+            if big:
+                chk.count("crash-with-record>8kB")
             if rec["kind"] == "ok":
                 chk.case({"lock": lock_kind, "programs": [[a["a"] for a in p] for p in rec["progs"]], "crash": rec["point"], "died_at": rec["crash_event"]},
                          nontrivial=rec["nontrivial"])
@@ -273,21 +291,109 @@ def sqlkill(chk: core.Check, max_k: int) -> None:
     chk.extra["sqlkill_events_total"] = total
 
 
+# ---- SQLite: kill the first worker while it initialises a brand-new database --------------------------------------
+CHILD_INIT = r"""
+import os, sys
+sys.path.insert(0, %(root)r)
+from sqlalchemy import event
+from sqlalchemy.engine import Engine
+import optuna
+from optuna.storages import RDBStorage
+optuna.logging.set_verbosity(optuna.logging.ERROR)
+url, k = sys.argv[1], int(sys.argv[2])
+count = [0]
+def tick(*a, **kw):
+    count[0] += 1
+    if count[0] == k:
+        os._exit(9)
+event.listen(Engine, "before_cursor_execute", tick)
+event.listen(Engine, "commit", tick)
+RDBStorage(url, engine_kwargs={"connect_args": {"timeout": 30}})
+print("DONE %%d" %% count[0], flush=True)
+"""
+
+
+def _init_kill_one(args: tuple[str, str, int]) -> dict[str, Any]:
+    script, tmp, k = args
+    from optuna.storages import RDBStorage
+    from optuna.study import StudyDirection
+    from optuna.trial import TrialState
+
+    url = "sqlite:///" + os.path.join(tmp, "initkill_%d_%d.db" % (os.getpid(), k))
+    p = subprocess.run([sys.executable, script, url, str(k)], capture_output=True, text=True, timeout=300, env=dict(os.environ))
+    done = any(l.startswith("DONE") for l in p.stdout.splitlines())
+    total = next((int(l.split()[1]) for l in p.stdout.splitlines() if l.startswith("DONE")), None)
+    # the survivors: two fresh workers open what the dead one left behind, write through one, read through all
+    try:
+        w1 = RDBStorage(url)
+        w2 = RDBStorage(url)
+        sid = w1.create_new_study([StudyDirection.MINIMIZE], "s")
+        tid = w2.create_new_trial(w2.get_study_id_from_name("s"))
+        w2.set_trial_user_attr(tid, "a", 1)
+        ok = w2.set_trial_state_values(tid, TrialState.COMPLETE, [0.5])
+        w3 = RDBStorage(url)
+        views = []
+        for w in (w1, w2, w3):
+            ts = w.get_all_trials(sid)
+            views.append([(t.number, int(t.state), t.values, t.user_attrs) for t in ts])
+        for w in (w1, w2, w3):
+            w.engine.dispose()
+    except Exception as e:  # noqa: BLE001
+        return {"k": k, "done": done, "total": total, "error": "%s: %s" % (type(e).__name__, str(e)[:300])}
+    want = [(0, int(TrialState.COMPLETE), [0.5], {"a": 1})]
+    if not ok or any(v != want for v in views):
+        return {"k": k, "done": done, "total": total, "error": "survivors' writes not readable by all: claim answered %s, views %s" % (ok, views)}
+    return {"k": k, "done": done, "total": total}
+
+
+def sqlkill_init(chk: core.Check, max_k: int) -> None:
+    """The worker that creates the database dies before its k-th SQL statement / commit of RDBStorage.__init__
+    (table creation, version row, alembic stamp); every later worker must still open, write and read."""
+    from concurrent.futures import ThreadPoolExecutor
+
+    script = os.path.join(chk.tmp, "child_init.py")
+    with open(script, "w") as f:
+        f.write(CHILD_INIT % {"root": core.REPO})
+    with ThreadPoolExecutor(12) as ex:
+        results = list(ex.map(_init_kill_one, [(script, chk.tmp, k) for k in range(1, max_k + 1)]))
+    total = next((r["total"] for r in results if r["done"]), None)
+    for r in results:
+        if total is not None and r["k"] > total:
+            continue
+        chk.case({"part": "sqlkill-init", "k": r["k"]}, nontrivial=not r["done"])
+        chk.count("sqlkill-init")
+        if "error" in r:
+            chk.violation({"kind": "sqlite-unusable-after-init-kill"}, {"k": r["k"]},
+                          "the first worker was SIGKILLed at SQL event %d of RDBStorage.__init__ on a new database; later workers: %s" % (r["k"], r["error"]))
+            return
+    chk.extra["sqlkill_init_events_total"] = total
+
+
 def search(chk: core.Check) -> None:
     chk.search_log.append("searching more crash scenarios on the real file backend")
     explore(chk, 60, False)
+    c05_txn.search_sessions(chk)
 
 
 def main(chk: core.Check) -> int:
     chk.rule = RULE
+    tsession.regenerate(chk)      # Generated/RdbSessions.lean from today's /repo, before the theorems are re-checked against it
     if not getattr(chk, "no_prove", False):
-        chk.prove()
+        chk.prove(["OptunaVerif.Props.C05", "OptunaVerif.Props.C05Txn"])
     quick = chk.tier == "quick"
     explore(chk, 10 if quick else 150, all_offsets=not quick)
     try:
         sqlkill(chk, 120 if quick else 200)
     except Exception as e:  # noqa: BLE001
         chk.extra["sqlkill_error"] = str(e)[:300]
+    try:
+        sqlkill_init(chk, 90 if quick else 140)
+    except Exception as e:  # noqa: BLE001
+        chk.extra["sqlkill_init_error"] = str(e)[:300]
+    try:
+        c05_txn.check_sessions(chk)   # one transaction per RDBStorage call: shape, real BEGIN/COMMIT, kill at every SQL event
+    except core.DriverBroken as e:
+        chk.broke("correspondence", {"driver": str(e)[:800]})
     chk.assumptions += ["kill -9 of a process = its thread never runs again (no finally, files stay as they are); bytes written and flushed before the kill are in the file (page-cache loss / power failure is out of scope)",
                         "stale-lock takeover is explored with a virtual clock (grace period 3) that only advances while all live threads sleep",
                         "SQLite's atomic commit is trusted; sqlkill only samples it"]
@@ -296,6 +402,8 @@ def main(chk: core.Check) -> int:
 
 def replay(chk: core.Check, path: str) -> int:
     w = json.load(open(path))["witness"]
+    if "scenario" in w:
+        return c05_txn.replay(chk, w)
     if "progs" not in w:
         print("sqlite witness: re-run ./check C05 --tier thorough")
         return 1
